@@ -17,23 +17,23 @@ SESSION_TXT = ("TLC checks the context state machine Riti.tla (both methods, ses
 CHECKS = {
     "C01": dict(category=MC, design_ref="DESIGN.md 5 C01",
                 technique="TLC model checking of Riti.tla (in-contract language as a state machine) + replay of every generated history through the real engine under catch_unwind",
-                text=SESSION_TXT + "; a panic or a call over the time budget on any in-contract event is a violation. Recorded runs (impl -> spec, Trace_Session / Trace_Store with focus C01: dictionary-guided and random sessions over all 111 key codes, both methods, learning commits and restarts) add depth; the recorder also presses every one of the 111 keys 40 times in a row after a short start (long compositions) in both methods; a call that does not return within the watchdog budget is reported like a panic, a fatal signal as a violation with site memory.",
+                text=SESSION_TXT + "; a panic or a call over the time budget on any in-contract event is a violation. Recorded runs (impl -> spec, Trace_Session / Trace_Store with focus C01: dictionary-guided and random sessions over all 111 key codes, both methods, learning commits and restarts) add depth; the recorder also presses every one of the 111 keys 40 times in a row after a short start (long compositions) in both methods; a call that does not return within the watchdog budget is reported like a panic, a fatal signal as a violation with site memory.; the whole-system shadow sessions (realistic words with corrections, learning commits, re-configurations, restarts) are validated with Focus=C01 as well",
                 note="bounded depth and class alphabets; replay contexts for the TLC histories run without the database; TLC, harness executor trusted"),
     "C02": dict(category=MC, design_ref="DESIGN.md 5 C02",
                 technique="TLC model checking of PropWellFormed on Riti.tla + replay with every returned suggestion fully read out (both accessors, every index)",
                 text=SESSION_TXT + "; every returned suggestion is read out completely (length, preselected index, auxiliary text = the spec's composition, every candidate and pre-edit text). "
-                     "Known finding F05 (echoed selection byte on punctuation keys) is carved out explicitly in the invariant and in known_findings.json.",
+                     "Known finding F05 (echoed selection byte on punctuation keys) is carved out explicitly in the invariant and in known_findings.json. A directed family presses every one of the 111 keys with the LAST valid index of a list of two or more candidates as selection byte (both methods, real dictionary): the next list may be shorter and its preselected index must lie inside it.",
                 note="selection bytes are always bound inside the previously returned list (the statement's proviso); fixed-mode auxiliary text compared against the descriptive transcript (drift, not violation)"),
     "C05": dict(category=MC, design_ref="DESIGN.md 5 C05",
                 technique="TLC model checking of the memo model (MemoTransparent) over all edit paths + paired replay: warm/edited/interleaved context vs brand-new context",
                 text="TLC enumerates 300 target texts x earlier words x typed prefix x all edit paths (3 steps quick / 4 thorough) and checks on the memo model that the prefixes the "
                      "suffix path looks up are in the memo exactly as in a fresh context; ~100k (quick) histories are replayed as pairs on the real engine - a long-lived warm "
-                     "context vs a brand-new context typing the surviving text - and the complete renderings compared; a second context of the same process (same configuration, no database directory, or other options) types the same characters just BEFORE the main one, and the brand-new reference comes from an isolated process per configuration",
+                     "context vs a brand-new context typing the surviving text - and the complete renderings compared; a second context of the same process (same configuration, no database directory, or other options) types the same characters just BEFORE the main one, and the brand-new reference comes from an isolated process per configuration. Whole-system shadow sessions (impl -> spec, Trace_Session clause Shadow, Focus=C05): recorded realistic sessions of one live context (dictionary-guided words with corrections, learning commits, update-engine to other configurations after edits of the user's auto-correct file, restarts, words typed again later) in which the returned suggestion is compared with the one a brand-new context over the same configuration and files gives for the surviving text; the trace specification decides when the comparison is owed",
                 note="store and selection byte held fixed; fresh renderings cached per (configuration, text); bounded edit depth; TLC, harness executor trusted"),
     "C06": dict(category=MC, design_ref="DESIGN.md 5 C06",
                 technique="TLC model checking of PropFreshWhenIdle / flag invariants on Riti.tla + differential replay: at every terminating event a brand-new context is forked and compared on the whole continuation",
                 text=SESSION_TXT + "; the statement's flag rules are checked at every event and, at every terminating event, a brand-new context with the same configuration is forked; "
-                     "used context and forks must render identically for the rest of the history (the configurations switch on the options that reveal each hidden piece of state)",
+                     "used context and forks must render identically for the rest of the history (the configurations switch on the options that reveal each hidden piece of state). Whole-system shadow sessions (impl -> spec, Trace_Session clause Shadow, Focus=C06): recorded realistic sessions of one live context (dictionary-guided words with corrections, learning commits, update-engine to other configurations after edits of the user's auto-correct file, restarts, words typed again later) in which the returned suggestion is compared with the one a brand-new context over the same configuration and files gives for the surviving text; the trace specification decides when the comparison is owed",
                 note="store held fixed (no learning commits); brand-new contexts are created with an empty database directory; bounded depth"),
     "C03": dict(category=MC, design_ref="DESIGN.md 5 C03",
                 technique="TLC model checking of Split.tla (ImplSplit = PropSplit on wrapped words) + TLC-generated scenarios replayed with the okkhor parser as transliteration oracle",
@@ -54,7 +54,7 @@ CHECKS = {
                 text="every list the real engine returns for a corpus (all 1-char strings, 1/6 or all 2-char strings over the 94 typeable characters, auto-correct keys, base x suffix "
                      "words, wrapped words, emoticons, emoji names, random words; 4 option sets) is logged with oracle facts and TLC decides the order relation clause by clause: "
                      "auto-correct first, non-decreasing admissible distances (greedy over the set of justifications), transliteration after dictionary words, English last, no emoji "
-                     "before an exact dictionary hit, no duplicates. MC_Candidates model-checks the list assembly (sources, four-variant comparator, duplicate check, stable sort) against the same relation for every small multiset of source facts",
+                     "before an exact dictionary hit, no duplicates. MC_Candidates model-checks the list assembly (sources, four-variant comparator, duplicate check, stable sort) against the same relation for every small multiset of source facts The corpus includes dictionary-guided spellings (dictionary words written back in Latin letters and kept when the okkhor pattern matches): every word a table lists more than once, a sample of the others, and bases for every final character of the dictionary x one suffix key per initial vowel sign.",
                 note="facts (dictionary+regex membership, Levenshtein, auto-correct, emoji tables, transliteration) are oracle-computed outside TLA+; quick tier samples the corpus"),
     "C08": dict(category=MC, design_ref="DESIGN.md 5 C08",
                 technique="TLC trace validation against Candidates.tla (PropJustified, PropSuffixComplete with Store.Join) with oracle facts incl. the lists offered for each base",
@@ -66,7 +66,7 @@ CHECKS = {
                 text="8 x 60 (quick) / 8 x 400 (thorough) recorded rounds of a commit-heavy driver (real words, META wrapping, smart quotes and English on/off, restarts over the same "
                      "directory, suffixed re-typing, file inspected after each commit) are validated by TLC: the learned map is spec state that evolves by the spec's own rules, every "
                      "shown list must preselect the learned (or correctly joined) candidate, committing the preselected index changes nothing, the file is always absent or valid. "
-                     "MC_Split checks the text-level round trip (KeyOf / StripCand / re-wrapping) on all class strings; MC_Store model-checks the store as a state machine (memory, file, restart, derived entries) against Remembered / SurvivesRestart, and StoreInd discharges the same invariant inductively with Apalache when it is available in time. Known finding F11 is accepted explicitly by the trace spec.",
+                     "MC_Split checks the text-level round trip (KeyOf / StripCand / re-wrapping) on all class strings; MC_Store model-checks the store as a state machine (memory, file, restart, derived entries) against Remembered / SurvivesRestart, and StoreInd discharges the same invariant inductively with Apalache when it is available in time. Whole-system shadow sessions (impl -> spec, Trace_Session clause Shadow, Focus=C09): recorded realistic sessions of one live context (dictionary-guided words with corrections, learning commits, update-engine to other configurations after edits of the user's auto-correct file, restarts, words typed again later) in which the returned suggestion is compared with the one a brand-new context over the same configuration and files gives for the surviving text; the trace specification decides when the comparison is owed. MC_System (the context with its per-user files as one state machine: learning commits, file edits, update-engine and restarts freely interleaved; invariant ShadowEquiv) is model-checked and random behaviours of 7/9 events are replayed against a context created afterwards over the same directory",
                 note="recorder facts: okkhor transliteration of every prefix/suffix of the typed text; statement scope 'same text typed again'; echoed selection byte on punctuation keys accepted (F05)"),
     "C10": dict(category=MC, design_ref="DESIGN.md 5 C10",
                 technique="TLC model checking of the environment/fault model MC_Fault + replay of every fault scenario with exhaustive concretisation of torn files (every byte prefix)",
@@ -79,7 +79,7 @@ CHECKS = {
                 text="TLC enumerates typing / auto-correct-file edits / update-engine / typing histories over 4 (quick) or 7 (thorough) configurations, checks the invariant on "
                      "the model (it finds the stale-memo counterexample on the pinned transcript in 4 steps) and emits every maximal history; the harness replays each with "
                      "explicit file mtimes against a brand-new context created with the new configuration over the same files; edits add / change / remove entries, make the file unparsable or delete it; a second instance performs two updates in a row (incl. suggestions switched off and on again); MC_Session histories add updates in the middle of arbitrary event sequences; recorded sessions with update-engine calls to random configurations and directed single-option flips (every helper option, number pad, "
-                     "suggestion switch, both directions) are validated by Trace_Session with Focus=C11: after an update every configuration-dependent conjunct is enforced against the new configuration",
+                     "suggestion switch, both directions) are validated by Trace_Session with Focus=C11: after an update every configuration-dependent conjunct is enforced against the new configuration. Whole-system shadow sessions (impl -> spec, Trace_Session clause Shadow, Focus=C11): recorded realistic sessions of one live context (dictionary-guided words with corrections, learning commits, update-engine to other configurations after edits of the user's auto-correct file, restarts, words typed again later) in which the returned suggestion is compared with the one a brand-new context over the same configuration and files gives for the surviving text; the trace specification decides when the comparison is owed (incl. every single option flipped by update-engine and back around the same word). MC_System states update = new for the whole system (ShadowEquiv), is model-checked to 4/5 events and replayed: all behaviours of 2/3 events, random ones of 7/9",
                 note="edits = content change, damage or deletion with newer mtime; bounded number of edits/words; TLC, harness executor trusted"),
     "C12": dict(category=MC, design_ref="DESIGN.md 5 C12",
                 technique="TLC bounded model checking of FixedCompose (PropKeySet) + replay of every TLC behaviour through the real engine",
@@ -92,7 +92,7 @@ CHECKS = {
                 text="TLC enumerates all histories ending in the reph key to depth 5 (quick) / 6 (thorough) over the 12 values the reph scan distinguishes x 16 settings, and to depth 4 / 5 over a class sweep "
                      "(all ten vowel signs, anusvara, visarga, khanda-ta, digit: 25 values) and to depth 4 over every one of the 36 consonants, "
                      "checks conservation for every reachable text and exact placement for every text matching the syllable grammar; every history ending in "
-                     "the reph key is replayed in the real engine and the pre-edit text compared after each event; the ranges include the old vowel-sign order (sign waiting / sign placed before the reph arrives)",
+                     "the reph key is replayed in the real engine and the pre-edit text compared after each event; the ranges include the old vowel-sign order (sign waiting / sign placed before the reph arrives); a fourth instance generates histories from the syllable grammar itself (conjuncts of up to 6/8 members joined by hasanta or the ro-fola / zo-fola keys, optional sign and chandrabindu, <= 9/11 keys)",
                 note="placement clause only for grammar-matching texts (statement: 'orthographically well-formed'); bounded depth; TLC, harness executor, rustc trusted"),
     "C14": dict(category=MC, design_ref="DESIGN.md 5 C14",
                 technique="TLC product-machine model checking (typewriter order/option on vs Unicode order/option off) + paired replay of every generated word in two real contexts",
@@ -104,7 +104,7 @@ CHECKS = {
                 technique="TLC trace validation of recorded fixed-layout lists against Candidates.tla (PropFixedList) with dictionary facts",
                 text="prefixes (up to 6/12 characters) of 1/97 (quick) or all (thorough) dictionary words, every Bengali emoji name and every emoticon are typed through the inverse of the "
                      "bundled layout, wrapped or not, under 6 option sets; TLC checks: first = composed text with curling (split decided by Split.tla), completions are dictionary words "
-                     "with the typed prefix, non-decreasing distance, at most nine, no repeats, raw key text last when English is on. MC_FixedList model-checks the list assembly (consecutive-only de-duplication, comparator, stable sort, cut) against the same clauses; the data facts it assumes are checked on the real dictionary (event dictfacts); every prefix of every duplicated dictionary entry and of every dictionary word containing a non-Bengali character is always typed, and every ASCII punctuation key of the layout inside dictionary prefixes",
+                     "with the typed prefix, non-decreasing distance, at most nine, no repeats, raw key text last when English is on. MC_FixedList model-checks the list assembly (consecutive-only de-duplication, comparator, stable sort, cut) against the same clauses; the data facts it assumes are checked on the real dictionary (event dictfacts); every prefix of every duplicated dictionary entry and of every dictionary word containing a non-Bengali character is always typed, and every ASCII punctuation key of the layout inside dictionary prefixes; every third item is also typed with a correction (another key and a backspace / a backspace and the last value again / backspaces down to the first code point and the rest again) and every list on the way validated (only the raw-key clause is waived after a backspace)",
                 note="dictionary facts and edit distance are oracle facts; cleaning = removing ASCII punctuation, danda, ZWNJ"),
     "C16": dict(category=MC, design_ref="DESIGN.md 5 C16",
                 technique="TLC trace validation (PropAnsi / FPropAnsi / Enc) of recorded lists in both methods + data-exhaustive encoding pass over dictionary.json",
@@ -116,7 +116,7 @@ CHECKS = {
                 technique="TLC enumeration of class strings with Split.tla deciding the wrapping + paired replay (option on/off) with the spec's curling relation per candidate",
                 text="TLC enumerates every quote-containing class string to length 5/7 in both methods, decides word/wrapping with Split.tla and emits paired scenarios "
                      "(contexts differing only in the option, two settings of English/ANSI); the harness checks same kind/length/preselection, untouched raw text and "
-                     "punctuation-only text, and the exact curled form of every other candidate; SmartQuoteLocal is model-checked for all class strings",
+                     "punctuation-only text, and the exact curled form of every other candidate; SmartQuoteLocal is model-checked for all class strings; phonetic pairs are also run with a learned choice (own user-data directory per side: type, commit another candidate, type again; strings to length 4/5)",
                 note="split of the transcript defines the wrapping for both sides of a pair; pooled contexts with confirmation on brand-new contexts"),
     "C18": dict(category=MC, design_ref="DESIGN.md 5 C18",
                 technique="TLC trace validation (PropEmoji / FPropEmoji) over the complete emojicon tables, typed in the method(s) that can type them",
